@@ -61,14 +61,14 @@ class Ctx:
         self.obs.append(o)
         return o
 
-    def withdraw_failures_since(self, mark: int, why: str):
+    def withdraw_failures_since(self, mark: int, why: str, prefix: str = ""):
         """The structural rules recorded since *mark* did not recognise the
         shape of what they looked at, and a stronger judge (an interpretive
         rule over the same construct) has decided the matter in the meantime:
         their negative verdicts are withdrawn (kept in the evidence as
         discharged with the reason)."""
         for o in self.obs[mark:]:
-            if not o.ok:
+            if not o.ok and o.key.startswith(prefix):
                 o.ok = True
                 o.what = f"[shape not recognised; {why}] " + o.what
                 o.nontrivial = False
